@@ -250,6 +250,13 @@ func (h *connHandshaker) Start(p Pipe) {
 	// If the following type assertion fails, then its a software bug.
 	conn := p.(connHandshakerPipe)
 	h.Lock()
+	if h.closed {
+		// Nobody will ever Wait for this connection (e.g. it was
+		// accepted just before its listener was closed).
+		h.Unlock()
+		_ = conn.Close()
+		return
+	}
 	h.workq[conn] = true
 	h.Unlock()
 	go h.worker(conn)
